@@ -9,6 +9,9 @@ func VerifParseCap(queryType string, raw []byte, cap int) (parsed, inspected, fi
 	p := &parserState{maxRecursion: cap}
 	p.reset()
 	got := p.consumeAny(raw, queries[queryType], 0)
+	if !p.complete {
+		got = 0
+	}
 	return got, p.ib, p.firstToken, p.querySatisfied
 }
 
